@@ -9,6 +9,7 @@ from ..report import Check
 from ..terms import OutsideFragment, expr_term, function_term, show
 from .lookups import (bias_consumers, delegation, helper_kind, index_forwarders, index_key_rule,
                       notify_protocol, tree_lookup, tree_sites)
+from .bounds import at_impl, on_impl, scan_at, scan_on
 from .ownership import ownership
 
 RULES = {
@@ -17,6 +18,8 @@ RULES = {
     "R05.2": "notify protocol and index forwarders (shared descriptor)",
     "R05.3": "membership maintains the index",
     "R05.6": "bias agreement of the closed-interval encoding",
+    "R05.7": "boundary logic of the tree helpers and of the linear scans nodes_on/nodes_at as "
+             "difference constraints",
     "R06.1": "Section.byte_intervals_on/at search the fresh section index with the helper of the "
              "same kind and no adjustment; Module/IR versions are same-name unions",
     "R06.2": "sections_on/at of Module and IR scan the sections accessor with nodes_on / nodes_at",
@@ -48,6 +51,10 @@ def run(chk: Check) -> None:
             n += 1
     chk.floor("R05.3", "index halves of the interval-set primitives", n, 2)
     bias_consumers(chk, "R05.6", ["util", "section"])
+    on_impl(chk, "R05.7")
+    at_impl(chk, "R05.7")
+    scan_on(chk, "R05.7")
+    scan_at(chk, "R05.7")
 
     sec = repo.cls("Section")
     mod = repo.cls("Module")
